@@ -1,8 +1,9 @@
+pub mod c03;
 pub mod c13;
 
 use crate::framework::Property;
 
-pub static ALL: &[&dyn Property] = &[&c13::C13];
+pub static ALL: &[&dyn Property] = &[&c03::C03, &c13::C13];
 
 pub fn lookup(id: &str) -> Option<&'static dyn Property> {
     ALL.iter().copied().find(|p| p.id() == id)
